@@ -57,6 +57,17 @@ def explore(body, start_bb, root_is, mark_pred, init_constraints=None, max_paths
                             nv[l_] = pv_
                             nv.pop(("a", l_), None)
                             continue
+                if "discr" in rv_ and len(rv_["discr"]["proj"]) == 2:
+                    # discriminant of the payload of a value built on this path: `match r { Err(Error::Transport(e)) => ..`
+                    pv_ = _payload_of(nv, rv_["discr"])
+                    if isinstance(pv_, tuple) and pv_ and pv_[0] == "v":
+                        dv_ = None
+                        for vv_ in body.facts.adts.get(pv_[1], {}).get("variants", []):
+                            if vv_["name"] == pv_[2]:
+                                dv_ = vv_["discr"]
+                        if dv_ is not None:
+                            nv[l_] = dv_
+                            continue
                 if "discr" in rv_ and not rv_["discr"]["proj"] and isinstance(nv.get(rv_["discr"]["l"]), tuple) \
                         and nv[rv_["discr"]["l"]][0] == "v":
                     adt_, var_ = nv[rv_["discr"]["l"]][1], nv[rv_["discr"]["l"]][2]
